@@ -180,6 +180,9 @@ func (me *multiEnv) trackFirst(p *mPair, res *scen.StepResult) {
 			if n, ok := lastHashLookup(res.Served); ok && n+1 <= lo {
 				lo = n + 1
 			}
+			if p.pm.start > 0 && p.pm.start <= lo {
+				lo = p.pm.start // a pair without a position begins at its configured start
+			}
 			p.first = lo
 			if os.Getenv("VERIF_DEBUG") != "" {
 				fmt.Fprintf(os.Stderr, "trackFirst %s first=%d cursor=%d served=%+v\n", p.name(), lo, dc.cursorIns[0].num, res.Served)
